@@ -9,7 +9,7 @@ def replay_witness(run, k):
     if not w:
         return True
     if w.get('kind', 'py') == 'py':
-        out = replay.native_calls(run.program.repo, [dict(func=w['function'], args=w['args'])])[0]
+        out = replay.native_calls(run.program.native_root(), [dict(func=w['function'], args=w['args'])])[0]
         if 'expect_exc' in w:
             return (not out['ok']) and out['exc'].startswith(w['expect_exc'])
         if 'expect_expr' in w:
